@@ -253,7 +253,7 @@ def harvest(tier):
 
 def run(tier):
     rep = Report("C07", "model_checking", tier)
-    k = 3 if tier == "quick" else 5
+    k = 3 if tier == "quick" else 4
     subsets = [()]
     for n in range(1, k + 1):
         subsets += list(itertools.combinations(FEATURES, n))
